@@ -64,6 +64,11 @@ func (v *libVM) addPackage(pkgPath, name string, files map[string]string) {
 	for _, n := range names {
 		mpkg.Files = append(mpkg.Files, &std.MemFile{Name: n, Body: files[n]})
 	}
+	// imports (stdlibs, examples) are loaded once on the root store itself: a
+	// package imported inside a transaction fork leaves its block nodes behind.
+	if err := test.LoadImports(v.store, mpkg, true); err != nil {
+		panic(fmt.Sprintf("loading imports of %s: %v", pkgPath, err))
+	}
 	txs := v.store.BeginTransaction(nil, nil, nil, nil)
 	m := gno.NewMachineWithOptions(gno.MachineOptions{
 		PkgPath: pkgPath, Output: &v.out, Store: txs,
